@@ -201,12 +201,14 @@ def acquired_in(fn_node, ctxvars):
     return out
 
 
-def released_on_all_normal_paths(fi, resource, ctxvars, cg=None, acq_loop_iter=None, cut_false_of=()):
+def released_on_all_normal_paths(fi, resource, ctxvars, cg=None, acq_loop_iter=None, cut_false_of=(), assume=()):
     """No path entry -> normal exit of `fi` that avoids every release of `resource`.
 
     acq_loop_iter: when the acquire sits in `for x in <iter>`, a release inside a loop over the same iterable pairs
     element by element, so that loop as a whole counts as the release.
-    cut_false_of: texts of guards whose false branch is exempt (table in the rule, one reason each)."""
+    cut_false_of: texts of guards whose false branch is exempt (table in the rule, one reason each).
+    assume: literal texts (astq.literals) known to hold on entry and not changed by the function: branches that contradict
+    them are not taken (the release is owed only under the condition under which the acquire happened)."""
     g = CFG(fi.node, (cg.stmt_may_raise(fi) if cg else (lambda s: False)))
     rel = []
     for n in g.nodes:
@@ -221,6 +223,17 @@ def released_on_all_normal_paths(fi, resource, ctxvars, cg=None, acq_loop_iter=N
     cut = [n for n in g.nodes if n.kind == "test" and n.note in cut_false_of]
     for c in cut:
         c.succ = [(m, l) for m, l in c.succ if l != "f"]
+    if assume:
+        from .astq import literals
+        for n in g.nodes:
+            test = getattr(n.stmt, "test", None) if n.kind == "test" else None
+            if test is None:
+                continue
+            pos, neg = literals(test, True), literals(test, False)
+            if pos and set(pos) <= set(assume):
+                n.succ = [(m, l) for m, l in n.succ if l != "f"]
+            elif neg and set(neg) <= set(assume):
+                n.succ = [(m, l) for m, l in n.succ if l != "t"]
     ok = not g.path_exists(g.entry, g.exit, avoid=rel, labels=("n", "t", "f"))
     path = None if ok else g.witness_path(g.entry, g.exit, avoid=rel, labels=("n", "t", "f"))
     return ok, path, len(rel)
